@@ -1,8 +1,8 @@
 (* C05 -- Policy iteration: evaluation is accurate and termination means policy stability. *)
 From Coq Require Import QArith Qabs List Arith ZArith Bool.
 From MdpaxV Require Import Model.ListUtil Model.QFun Model.MDP Model.Bellman Model.Batching Model.Kernel Model.Solvers
-     Model.KernelOps Proofs.ContractionP Proofs.LoopP Proofs.C01P Proofs.C01RunP Proofs.C02P Proofs.C05P Proofs.GenKernelP.
-From MdpaxGen Require Import GenKernel.
+     Model.KernelOps Proofs.ContractionP Proofs.LoopP Proofs.C01P Proofs.C01RunP Proofs.C02P Proofs.C05P Proofs.GenKernelP Proofs.GenPiEvalP.
+From MdpaxGen Require Import GenKernel GenPiEval GenThreshold.
 Import ListNotations.
 Open Scope Q_scope.
 
@@ -14,6 +14,16 @@ Theorem generated_policy_evaluation_sweep : forall (M : mdp) actions events g V 
   map (map (fun st => k_state_action_value M st (nth st pol 0%nat) events g V)) batches.
 Proof. exact gen_policy_values_scan_eq. Qed.
 Print Assumptions generated_policy_evaluation_sweep.
+
+(* the evaluation LOOP generated from _evaluate_policy (budget, sweep, test, break before the assignment - the pre-update
+   iterate is returned when the test passes - and the choice of the starting vector) is the eval_loop of the state machine *)
+Theorem generated_evaluation_loop_is_the_modelled_loop : forall g eps (EV : list nat -> list Q -> list Q) t k P vals,
+  gen_evaluate_policy (EV P) (measure t) (vi_threshold t g eps) k vals = fst (eval_loop g eps EV t k P vals).
+Proof. exact gen_evaluate_policy_eq. Qed.
+Print Assumptions generated_evaluation_loop_is_the_modelled_loop.
+Theorem generated_evaluation_start : forall reset V0 vals, gen_eval_start reset V0 vals None = (if reset then V0 else vals).
+Proof. exact gen_eval_start_eq. Qed.
+Print Assumptions generated_evaluation_start.
 
 (* one evaluation step, for EVERY layout and whatever the padded rows look up *)
 Theorem eval_step_spec : forall (M : mdp) (g : Q) (V : list Q) (n mb d : Z),
